@@ -68,10 +68,51 @@ pub struct Ctx<'a> {
     pub data: &'a CfgData,
 }
 
+thread_local! {
+    /// largest magnitude among the operands of the line being judged (in the units of the result):
+    /// a difference of two nearly equal amounts is only as exact as its operands
+    pub static OPERAND_SCALE: std::cell::Cell<f64> = const { std::cell::Cell::new(0.0) };
+}
+
 pub fn close(a: f64, b: f64) -> bool {
     if a == b { return true; }
     if !a.is_finite() || !b.is_finite() { return false; }
-    (a - b).abs() <= 1e-9 * a.abs().max(b.abs()) + 1e-9
+    let scale = OPERAND_SCALE.with(|s| s.get());
+    (a - b).abs() <= 1e-9 * a.abs().max(b.abs()).max(scale) + 1e-9
+}
+
+/// largest magnitude of a number / amount among the operands of an expression, amounts of money
+/// expressed in every currency that occurs (so that it bounds the operands in the result's unit)
+pub fn operand_scale(e: &Expr, c: &Ctx) -> f64 {
+    fn walk(e: &Expr, c: &Ctx, vals: &mut Vec<(f64, Option<String>)>) {
+        match e {
+            Expr::Lit(_) | Expr::Var(_) => match eval(e, c) {
+                R::V(MVal::Num(v)) | R::V(MVal::Pct(v)) => vals.push((v.abs(), None)),
+                R::V(MVal::Money(v, code)) => vals.push((v.abs(), Some(code))),
+                R::V(MVal::Unit(v, ..)) => vals.push((v.abs(), None)),
+                _ => {}
+            },
+            Expr::Neg(x) | Expr::Paren(x) => walk(x, c, vals),
+            Expr::Bin { l, r, .. } => { walk(l, c, vals); walk(r, c, vals); }
+            Expr::ToCur { e, code, .. } => { walk(e, c, vals); vals.push((0.0, Some(code.clone()))); }
+            Expr::ToZone { e, .. } | Expr::AsUnix { e, .. } | Expr::FromUnix { e, .. } => walk(e, c, vals),
+            Expr::Between { a, b } => { walk(a, c, vals); walk(b, c, vals); }
+            Expr::At { d, t } => { walk(d, c, vals); walk(t, c, vals); }
+        }
+    }
+    let mut vals = Vec::new();
+    walk(e, c, &mut vals);
+    let codes: Vec<String> = vals.iter().filter_map(|(_, c)| c.clone()).collect();
+    let mut m = 0.0f64;
+    for (v, code) in vals.iter() {
+        m = m.max(*v);
+        if let Some(from) = code {
+            for to in codes.iter() {
+                if let (Some(rf), Some(rt)) = (c.rates.get(from), c.rates.get(to)) { if *rf > 0.0 { m = m.max(v * rt / rf); } }
+            }
+        }
+    }
+    m
 }
 
 fn div(a: f64, b: f64) -> f64 {
